@@ -7,13 +7,13 @@ import vpcore as v
 from vprun import Run
 
 # factor sizes, in the order of spec/NegotiateDom.tla (kept in step by check_dom below)
-SIZES = [2, 3, 5, 5, 5, 6, 6, 4, 5, 9, 9, 9, 9, 4, 3, 3, 3, 2, 2]
+SIZES = [2, 3, 5, 5, 5, 6, 6, 4, 5, 9, 9, 9, 9, 4, 3, 3, 3, 2, 2, 2]
 NAMES = ["las", "peer", "lv4", "lv6", "lvpn4", "lhold", "lka", "lgr", "ras", "rhold", "rv4", "rv6", "rvpn4",
-         "rother", "rext", "rgr", "layout", "order", "bulk"]
+         "rother", "rext", "rgr", "layout", "order", "bulk", "asform"]
 PEER, LHOLD, LKA, RHOLD = 1, 5, 6, 9
 ACCEPT = {PEER: [1, 2], RHOLD: [1, 4, 5, 6, 7, 8, 9]}          # configurations x OPENs that must come up
 CHUNK = 250
-BASE = [1, 1, 2, 1, 1, 1, 1, 1, 1, 6, 2, 1, 1, 1, 1, 1, 1, 1, 2]
+BASE = [1, 1, 2, 1, 1, 1, 1, 1, 1, 6, 2, 1, 1, 1, 1, 1, 1, 1, 2, 1]
 
 
 def domain(restrict=None):
@@ -78,7 +78,7 @@ def suites(tier, seed):
     s["pairwise"] = pairwise(acc, rng)
     # refused OPENs: hold time 1/2 and a wrong AS, pairwise with what could influence the answer
     ref = domain({RHOLD: [2, 3, 4, 7]})
-    s["refuse"] = [r for r in pairwise(ref, rng, free=[0, 1, 5, 7, 8, 9, 16, 17])]
+    s["refuse"] = [r for r in pairwise(ref, rng, free=[0, 1, 5, 7, 8, 9, 16, 17, 19])]
     # keepalive boundary: configured hold time (90 default, 3, 9, 30, 0) x configured keepalive
     # (none, 1, 2, 5, 20, 45: shorter / longer than a third, and not below the hold time) x
     # peer hold time (0, 3, 9, 10, 30, 90, 65535): equal, smaller and larger than the local one
@@ -92,7 +92,7 @@ def suites(tier, seed):
         s["timers"] = product(acc, [PEER, LHOLD, LKA, RHOLD], rng, acc)
         for name, li, ri in (("famv4", 2, 10), ("famv6", 3, 11), ("famvpn4", 4, 12)):
             s[name] = product(acc, [li, ri, 16, 17], rng, acc)
-        s["as"] = product(full, [0, 1, 8, 16], rng, acc)
+        s["as"] = product(full, [0, 1, 8, 16, 19], rng, acc)
         s["extgr"] = product(acc, [14, 7, 15, 8], rng, acc)
         nomp = domain(ACCEPT)
         for i in (10, 11, 12):
